@@ -1,12 +1,26 @@
-(* C23 driver (stage 1: Go model only) *)
+(* C23 driver.  Replays a history (imports / finalisations of a block tree that carries scheduled
+   and forced change announcements) on
+     - the extracted model of the Go code (Model.go_step ...)           -> model_eq
+     - the extracted Substrate AuthoritySet specification (Spec.spec_step ...) and compares the
+       implementation's observables with the specification's            -> prop_ok
+   after every event: result (ok / error), current set id, authorities of every set id, set id
+   reported for every block number, next authority change for every live block as best. *)
 open Model
 open Vutil
 
 let lst s = if s = "-" || s = "" then [] else String.split_on_char ';' s
 let ioh s = int_of_n (n_of_hex s)
 let sub s i = String.sub s i (String.length s - i)
-
 let res_str = function ROk -> "ok" | RErrDigest -> "err:digest" | RErrForced -> "err:forced" | RErrSched -> "err:sched"
+(* the Go model mirrors the repaired code; C23_VARIANT=prefix selects the pinned code (debugging) *)
+let variant = (try if Sys.getenv "C23_VARIANT" = "prefix" then prefix else fixed with Not_found -> fixed)
+
+let rec chunk7 = function
+  | a :: b :: c :: d :: e :: f :: g :: r -> (a, b, c, d, e, f, g) :: chunk7 r
+  | [] -> []
+  | _ -> [("shape", "", "", "", "", "", "")]
+let rec dump_nodes l = String.concat "" (List.map (fun n ->
+  Printf.sprintf "%x(%s)" (int_of_nat (n_change n).pc_blk) (dump_nodes (n_children n))) l)
 
 let check inp obs =
   match split_ws inp with
@@ -21,32 +35,119 @@ let check inp obs =
       | [b; d; a; f] when c.[0] = 'f' ->
         forced := (nat_of_int (ioh b), { pc_blk = nat_of_int (ioh b); pc_delay = n_of_hex d; pc_auth = n_of_hex a; pc_bestfin = n_of_hex f }) :: !forced
       | _ -> fail "bad change %s" c) (lst cl);
-    let maxnum = List.fold_left max 0 (List.init (nb + 1) (fun k -> int_of_n (number t (nat_of_int k)))) in
+    let num k = int_of_n (number t (nat_of_int k)) in
+    let maxnum = List.fold_left max 0 (List.init (nb + 1) num) in
     let imported = Array.make (nb + 1) false in
     imported.(0) <- true;
     let st = ref ginit in
+    let sp = ref (Some sinit) in
+    let fin = ref 0 in
     let toks = ref [] in
     let stop = ref false in
+    let impl = ref (chunk7 (split_ws obs)) in
+    let why = ref [] in          (* divergences implementation <-> specification (first event only) *)
+    let tags = Hashtbl.create 16 in
+    let tag x = Hashtbl.replace tags x () in
+    let nontrivial = ref false in
+    let nev = ref 0 in
+    let guard_hit = ref false in
+    let failure_seen = ref false in
+    let guard_at_failure = ref false in
     List.iter (fun ev -> if not !stop then begin
       let k = ioh (sub ev 1) in
-      let e = if ev.[0] = 'i' then (imported.(k) <- true; Import (nat_of_int k)) else Finalise (nat_of_int k) in
-      let (s', r) = go_step prefix_pred t !sched !forced !st e in
-      st := s';
-      let s = s' in
+      let e = if ev.[0] = 'i' then (imported.(k) <- true; Import (nat_of_int k))
+              else (fin := k; Finalise (nat_of_int k)) in
+      (* --- Go model --- *)
+      let before = !st in
+      let (s, r) = go_step variant t !sched !forced !st e in
+      st := s;
+      if s.g_setid <> before.g_setid then begin
+        nontrivial := true;
+        tag (if ev.[0] = 'i' then "forced-change-applied" else "scheduled-change-applied") end;
+      (match r with ROk -> () | r -> tag (res_str r));
+      if List.length s.g_forced > 1 then tag "forced-pending>1";
+      if List.exists (fun n -> n_children n <> []) s.g_roots then tag "scheduled-tree-depth>1";
+      if List.length s.g_roots > 1 then tag "scheduled-roots>1";
+      let live = List.filter (fun k -> imported.(k) && is_anc t (nat_of_int !fin) (nat_of_int k)) (List.init (nb + 1) (fun k -> k)) in
       let a = String.concat "." (List.init (int_of_n s.g_setid + 2) (fun id ->
         match aget s.g_auths (n_of_int id) with Some x -> hex_of_n x | None -> "-")) in
       let n = String.concat "." (List.init (maxnum + 3) (fun n ->
         match go_setid_by_number s (n_of_int n) with Some x -> hex_of_n x | None -> "?")) in
-      let xs = List.filter_map (fun k ->
-        if imported.(k) && is_anc t s.g_fin (nat_of_int k) then
-          Some (Printf.sprintf "%x:%s" k (match go_next_change t s (nat_of_int k) with
-            | None -> "!" | Some None -> "-" | Some (Some v) -> hex_of_n v))
-        else None) (List.init (nb + 1) (fun k -> k)) in
-      toks := List.rev_append [res_str r; "s=" ^ hex_of_n s.g_setid; "a=" ^ a; "n=" ^ n; "x=" ^ String.concat "," xs] !toks;
-      if r <> ROk then stop := true
+      let xs = List.map (fun k ->
+          Printf.sprintf "%x:%s" k (match go_next_change variant t s (nat_of_int k) with
+            | None -> "!" | Some None -> "-" | Some (Some v) -> hex_of_n v)) live in
+      let fdump = if s.g_forced = [] then "-" else
+        String.concat "." (List.map (fun c -> Printf.sprintf "%x" (int_of_nat c.pc_blk)) s.g_forced) in
+      let rdump = if s.g_roots = [] then "-" else dump_nodes s.g_roots in
+      toks := List.rev_append [res_str r; "s=" ^ hex_of_n s.g_setid; "a=" ^ a; "n=" ^ n; "x=" ^ String.concat "," xs;
+                               "F=" ^ fdump; "R=" ^ rdump] !toks;
+      if r <> ROk then stop := true;
+      (* --- specification vs implementation --- *)
+      (match !impl with
+       | [] -> if !why = [] then why := [Printf.sprintf "ev%d(%s):missing" !nev ev]
+       | (ir, is_, ia, in_, ix, iff, _) :: rest ->
+         impl := rest;
+         let iok = (ir = "ok") in
+         (* Substrate keeps pending_forced_changes ordered by (effective number, canon height) *)
+         (if !why = [] && String.length iff > 2 && iff <> "F=-" && iff <> "F=?" then begin
+            let bl = List.map (fun x -> nat_of_int (ioh x)) (String.split_on_char '.' (sub iff 2)) in
+            let key b = match cfind !forced b with
+              | Some c -> (int_of_n (eff t c), int_of_n (number t b)) | None -> (-1, -1) in
+            let rec sorted = function a :: (b :: _ as r) -> key a <= key b && sorted r | _ -> true in
+            if not (sorted bl) then why := [Printf.sprintf "ev%d(%s):forced changes not ordered by (effective number, announcing number): %s" !nev ev iff]
+          end);
+         (* known-finding guard: a pending forced change announced on the finalised chain *)
+         (match e, !sp with
+          | Finalise h, Some q ->
+            if List.exists (fun c -> is_anc t c.pc_blk h) q.s_forced then guard_hit := true
+          | _ -> ());
+         (match !sp with
+          | None -> ()
+          | Some sp0 ->
+            let sp1 = spec_step t !sched !forced sp0 e in
+            sp := sp1;
+            if !why = [] then begin
+              match sp1 with
+              | None ->
+                tag "spec-error";
+                if iok then why := [Printf.sprintf "ev%d(%s):result impl=ok spec=err" !nev ev]
+              | Some q ->
+                if not iok then begin
+                  why := [Printf.sprintf "ev%d(%s):result impl=%s spec=ok" !nev ev ir]; sp := None
+                end else begin
+                  let d = ref [] in
+                  let ss = "s=" ^ hex_of_n q.s_setid in
+                  if ss <> is_ then d := (Printf.sprintf "setid impl %s spec %s" is_ ss) :: !d;
+                  let sa = "a=" ^ String.concat "." (List.init (int_of_n q.s_setid + 2) (fun id ->
+                    match aget q.s_hist (n_of_int id) with Some x -> hex_of_n x | None -> "-")) in
+                  if sa <> ia then d := (Printf.sprintf "auths impl %s spec %s" ia sa) :: !d;
+                  let sn = "n=" ^ String.concat "." (List.init (maxnum + 3) (fun n ->
+                    hex_of_n (spec_setid_by_number q (n_of_int n)))) in
+                  (* authority_set_changes is searched as a sorted vector: when a forced change's best
+                     finalized number lies below an earlier set change the lookup is unspecified *)
+                  let rec nondecr = function (_, a) :: ((_, b) :: _ as r) -> int_of_n a <= int_of_n b && nondecr r | _ -> true in
+                  if not (nondecr q.s_changes) then tag "set-changes-not-monotone(n-not-compared)"
+                  else if sn <> in_ then d := (Printf.sprintf "setid-by-number impl %s spec %s" in_ sn) :: !d;
+                  let sx = "x=" ^ String.concat "," (List.map (fun k ->
+                    Printf.sprintf "%x:%s" k (match spec_next_change t q (nat_of_int k) with
+                      | None -> "-" | Some v -> hex_of_n v)) live) in
+                  if sx <> ix then d := (Printf.sprintf "next-change impl %s spec %s" ix sx) :: !d;
+                  if !d <> [] then
+                    why := [Printf.sprintf "ev%d(%s):%s" !nev ev (String.concat "; " (List.rev !d))]
+                end
+            end));
+      if !why <> [] && not !failure_seen then begin failure_seen := true; guard_at_failure := !guard_hit end;
+      incr nev
     end) (lst el);
     let model = String.concat " " (List.rev !toks) in
-    { (ok ~tags:"stage1" ()) with model_eq = (model = obs); detail = if model = obs then "" else "model=" ^ model }
+    let prop = (!why = []) in
+    let eq = (model = obs) in
+    if !guard_hit then tag "guard:forced-change-on-finalised-chain";
+    { prop_ok = prop; model_eq = eq; nontrivial = !nontrivial;
+      finding = (if (not prop) && !guard_at_failure then "forced-change-on-finalised-chain" else "-");
+      tags = String.concat "," (List.sort compare (Hashtbl.fold (fun k () a -> k :: a) tags []));
+      detail = (if prop && eq then "" else
+                Printf.sprintf "%s%s" (String.concat "; " !why) (if eq then "" else " model=" ^ model)) }
   | _ -> fail "C23: bad input %s" inp
 
 let () = run_driver check
